@@ -29,6 +29,21 @@ def reg_facts(t):
     return None
 
 
+def operand_only(t):
+    """term mentions operand bytes and nothing else"""
+    if t[0] == 'c':
+        return False
+    seen = set()
+    stack = [t]
+    while stack:
+        x = stack.pop()
+        if x[0] == 's':
+            seen.add(x[2])
+        elif x[0] == 'o':
+            stack.extend(a for a in x[3:] if isinstance(a, tuple))
+    return bool(seen) and seen <= {'b1', 'b2'}
+
+
 def all_encodings():
     for opc in range(256):
         if opc == 0xcb:
@@ -79,17 +94,54 @@ class OpSpec:
         return op, ln[2] if ln[0] == 'c' else None, cy[2] if cy[0] == 'c' else None
 
     # -- interpreter ----------------------------------------------------------
-    def interp(self, enc):
-        if enc in self._int:
-            return self._int[enc]
+    def interp(self, enc, cons=None, label=''):
+        """interpreter paths of one encoding; `cons` (from emit_cases) restricts the operand bytes"""
+        key = (enc, label)
+        if key in self._int:
+            return self._int[key]
         op, ln, cy = self.decoded(enc)
         ip = self.ip_int
         st = ip.new_state()
+        if cons:
+            for t, av in cons[0]:
+                st.env.assume(t, av)
+            for t, vals in cons[1]:
+                for v in vals:
+                    st.env.assume_ne(t, v)
         regs = ip.arg_object(st, 'regs')
         mem = S(0, 'mem')
         rs = ip.run('interpreter::run_op', [op, regs, mem, C(32, ln)], st)
-        self._int[enc] = rs
+        self._int[key] = rs
         return rs
+
+    def emit_cases(self, enc):
+        """-> ([(label, emit result, operand constraints or None)], [non-ok results]).  encode_op normally yields one
+        code sequence per encoding; when it branches on an operand byte every branch is a case of its own, compared
+        with the interpreter under the same operand constraint."""
+        ers = self.emit(enc)
+        oks = [r for r in ers if r.status == 'ok']
+        bad = [r for r in ers if r.status != 'ok']
+        if len(oks) == 1:
+            return [('', oks[0], None)], bad
+        cases = []
+        for i, r in enumerate(oks):
+            env = r.state.env
+            refs = [(t, av) for t, av in env.ref.items() if operand_only(t)]
+            excl = [(t, sorted(v)) for t, v in env.excl.items() if operand_only(t) and v]
+            desc = []
+            for t, av in refs:
+                nm = t[2] if t[0] == 's' else ('imm16' if t == IMM16 or t == O(32, 'zext', IMM16) else fmt(t)[:48])
+                desc.append('%s=%02x' % (nm, av.lo) if av.is_const() else '%s in %x..%x' % (nm, av.lo, av.hi))
+            for t, vals in excl:
+                if t[0] == 's':
+                    desc.append('%s!=%s' % (t[2], '/'.join('%02x' % v for v in vals)))
+            if any('(' not in d for d in desc):
+                desc = [d for d in desc if '(' not in d]
+            label = '@' + (','.join(sorted(desc)) or 'case%d' % i)
+            if any(c[0] == label for c in cases):
+                label += '#%d' % i
+            cases.append((label, r, (refs, excl)))
+        return cases, bad
 
     # -- emitter ---------------------------------------------------------------
     def emit(self, enc):
